@@ -282,7 +282,9 @@ class Spelling(Family):
                 c2.pop('_rt', None)
                 w2 = self._rt(c2)[1]
                 def norm(b):
-                    return b.replace(s.encode(), b'@').replace(c2['spelling'].encode(), b'@')
+                    for n in sorted({s, c2['spelling'], 'utf-8'}, key=len, reverse=True):
+                        b = b.replace(n.encode(), b'@')
+                    return b
                 if norm(data) != norm(w2):
                     out.append(('C15', 'bytes-depend-on-spelling', 'bytes under %r differ from those under %r'
                                 % (s, c2['spelling'])))
